@@ -569,7 +569,7 @@ def _get_neighbourhood(cell_layer, neighbourhood_indices, row, col, neighbourhoo
     if neighbourhood == 'Moore':
         return n
     elif neighbourhood == 'von Neumann':
-        return np.ma.masked_array(n, von_neumann_mask)
+        return np.ma.masked_array(n, von_neumann_mask.copy())
     else:
         raise ValueError('unknown neighbourhood type: %s' % neighbourhood)
 
@@ -730,7 +730,7 @@ def _update_state(cell_indices, cell_idx_to_neigh_idx, curr_state, next_state, c
             neighbourhood = curr_state[np.ix_(neigh_row_indices, neigh_col_indices)]
 
             if neighbourhood_type == 'von Neumann':
-                neighbourhood = np.ma.masked_array(neighbourhood, von_neumann_mask)
+                neighbourhood = np.ma.masked_array(neighbourhood, von_neumann_mask.copy())
             elif neighbourhood_type != 'Moore':
                 raise ValueError('unknown neighbourhood type: %s' % neighbourhood_type)
 
